@@ -43,9 +43,9 @@
 EXTENDS AsciiMapDefs, Rational, Json
 
 CONSTANTS Families,     \* families of documents explored
-          MaxLevel      \* number of edits applied to the base document of a family
+          MaxLevel(_)   \* family -> number of edits applied to its base document
 
-VARIABLES fam, doc, act
+VARIABLES fam, doc, act, depth        \* depth: number of edits applied (hidden by the VIEW: a document is a document)
 vars == <<fam, doc>>
 
 (* ============================================ helpers ============================================ *)
@@ -108,29 +108,23 @@ NegativeArea(B, c) ==
     ELSE IF c.shape = "Rectangle" THEN Res(B, c.name, "lengthInner") * Res(B, c.name, "widthInner")
                                         > Res(B, c.name, "lengthOuter") * Res(B, c.name, "widthOuter")
     ELSE FALSE
-\* rational bounds on areas (units: 1e-4 cm^2): 3 < pi < 22/7, 6/7 < sqrt(3)/2 < 7/8
-AreaLow(B, c) ==                      \* a lower bound of mult * area, as <<n, d>>
-    LET m == AMax2(Res(B, c.name, "mult"), 0) IN
-    IF c.shape = "Circle" THEN <<3 * m * (Res(B, c.name, "od") * Res(B, c.name, "od") - Res(B, c.name, "id") * Res(B, c.name, "id")), 4>>
-    ELSE <<0, 1>>
-AreaHigh(B, c) ==
-    LET m == AMax2(Res(B, c.name, "mult"), 0) IN
-    IF c.shape = "Circle" THEN <<22 * m * (Res(B, c.name, "od") * Res(B, c.name, "od") - Res(B, c.name, "id") * Res(B, c.name, "id")), 28>>
-    ELSE <<0, 1>>
-\* the room inside the bounding component (the last one): hexagon of inner flat-to-flat ip, or inner rectangle
-Outer(B) == B.comps[Len(B.comps)]
-RoomLow(B) == LET o == Outer(B) IN
-    IF o.shape = "Hexagon" THEN <<6 * Res(B, o.name, "ip") * Res(B, o.name, "ip"), 7>>
-    ELSE IF o.shape = "Rectangle" THEN <<Res(B, o.name, "lengthInner") * Res(B, o.name, "widthInner"), 1>>
-    ELSE <<Res(B, o.name, "widthInner") * Res(B, o.name, "widthInner"), 1>>
-RoomHigh(B) == LET o == Outer(B) IN
-    IF o.shape = "Hexagon" THEN <<7 * Res(B, o.name, "ip") * Res(B, o.name, "ip"), 8>>
-    ELSE RoomLow(B)
-Pins(B) == {k \in 1..(Len(B.comps) - 1) : B.comps[k].shape = "Circle" /\ ~NegativeArea(B, B.comps[k])}
-PinsLow(B)  == RSumSet(Pins(B), LAMBDA k : AreaLow(B, B.comps[k]))
-PinsHigh(B) == RSumSet(Pins(B), LAMBDA k : AreaHigh(B, B.comps[k]))
-CertainlyFits(B)    == RLeq(PinsHigh(B), RoomLow(B))
-CertainlyExceeds(B) == RLt(RoomHigh(B), PinsLow(B))
+\* Does the block hold its pins?  Exact areas need pi and sqrt(3); integer bounds decide the clear cases and the
+\* explored documents are clear cases (Modelled).  Units 1e-4 cm^2.  11/14 > pi/4 > 3/4 and 7/8 > sqrt(3)/2 > 6/7.
+Outer(B) == B.comps[Len(B.comps)]                 \* the bounding component is written last
+Inner(B) == {k \in 1..(Len(B.comps) - 1) : B.comps[k].shape \in {"Circle", "Square"} /\ ~NegativeArea(B, B.comps[k])}
+Sq(B, c, o, i) == AMax2(Res(B, c.name, "mult"), 0) * (Res(B, c.name, o) * Res(B, c.name, o) - Res(B, c.name, i) * Res(B, c.name, i))
+QCirc(B) == FoldSet(LAMBDA k, acc : acc + (IF B.comps[k].shape = "Circle" THEN Sq(B, B.comps[k], "od", "id") ELSE 0), 0, Inner(B))
+QSqr(B)  == FoldSet(LAMBDA k, acc : acc + (IF B.comps[k].shape = "Square" THEN Sq(B, B.comps[k], "widthOuter", "widthInner") ELSE 0), 0, Inner(B))
+\* the room inside the bounding component: hexagon of inner flat-to-flat ip (area sqrt(3)/2 ip^2) or inner rectangle
+HexRoom(B)  == Res(B, Outer(B).name, "ip") * Res(B, Outer(B).name, "ip")
+RectRoom(B) == IF Outer(B).shape = "Rectangle" THEN Res(B, Outer(B).name, "lengthInner") * Res(B, Outer(B).name, "widthInner")
+               ELSE Res(B, Outer(B).name, "widthInner") * Res(B, Outer(B).name, "widthInner")
+CertainlyFits(B) ==
+    IF Outer(B).shape = "Hexagon" THEN 11 * QCirc(B) + 14 * QSqr(B) <= 12 * HexRoom(B)
+    ELSE 11 * QCirc(B) + 14 * QSqr(B) <= 14 * RectRoom(B)
+CertainlyExceeds(B) ==
+    IF Outer(B).shape = "Hexagon" THEN 6 * QCirc(B) + 8 * QSqr(B) > 7 * HexRoom(B)
+    ELSE 3 * QCirc(B) + 4 * QSqr(B) > 4 * RectRoom(B)
 
 (* ============================================ grids ============================================ *)
 GridIdx(d, gn) == {k \in 1..Len(d.grids) : d.grids[k].name = gn}
@@ -336,6 +330,7 @@ Bases(f) == IF f = "links" THEN {BaseLinks}
 Init == /\ fam \in Families
         /\ doc \in Bases(fam)
         /\ act = [n |-> "Init"]
+        /\ depth = 0
 
 PinNames == {"fuel", "clad", "liner"}
 Geo == {"od", "id"}
@@ -343,8 +338,9 @@ Geo == {"od", "id"}
 SetLink(cn, d, tn, td) ==
     /\ fam = "links" /\ cn \in PinNames /\ tn \in PinNames /\ cn # tn
     /\ HasComp(doc.blocks[1], cn)
-    /\ (d \in Geo /\ td \in Geo) \/ (d = "mult" /\ td = "mult")
+    /\ IF d = "mult" THEN td = "mult" ELSE (d \in Geo /\ td \in Geo)
     /\ LET k == CHOOSE x \in CompIdx(doc.blocks[1], cn) : TRUE IN
+       /\ d \in DOMAIN doc.blocks[1].comps[k].dims
        /\ doc.blocks[1].comps[k].dims[d] # Lnk(tn, td)
        /\ doc' = [doc EXCEPT !.blocks[1].comps[k].dims[d] = Lnk(tn, td)]
     /\ act' = [n |-> "SetLink", c |-> cn, d |-> d, tc |-> tn, td |-> td]
@@ -354,6 +350,7 @@ SetNum(cn, d) ==
     /\ fam = "links" /\ cn \in PinNames /\ d \in {"od", "id", "mult"}
     /\ HasComp(doc.blocks[1], cn)
     /\ LET k == CHOOSE x \in CompIdx(doc.blocks[1], cn) : TRUE IN
+       /\ d \in DOMAIN doc.blocks[1].comps[k].dims
        /\ doc.blocks[1].comps[k].dims[d] # Num(AltValue[cn][d])
        /\ doc' = [doc EXCEPT !.blocks[1].comps[k].dims[d] = Num(AltValue[cn][d])]
     /\ act' = [n |-> "SetNum", c |-> cn, d |-> d]
@@ -468,13 +465,13 @@ PlacePin(x, id) ==
            f  == CellsOf(gr)
            S  == (DOMAIN f \ {x}) \cup {x}
            g2 == [c \in S |-> IF c = x THEN id ELSE f[c]] IN
-       /\ (x \notin DOMAIN f) \/ f[x] # id
+       /\ IF x \in DOMAIN f THEN f[x] # id ELSE TRUE
        /\ doc' = [doc EXCEPT !.grids[2].cells = ContentsSeq(g2),
                              !.grids[2].text = IF gr.mode = "map" THEN Draw(MapClassOf(gr.geom, gr.dom), S, LAMBDA c : g2[c], FALSE) ELSE <<>>]
     /\ act' = [n |-> "PlacePin", x |-> x, id |-> id]
 PinMode(mode, geom) ==
     /\ fam = "pins" /\ mode \in {"map", "cells"} /\ geom \in {"hex_corners_up", "hex"}
-    /\ doc.grids[2].mode # mode \/ doc.grids[2].geom # geom
+    /\ <<doc.grids[2].mode, doc.grids[2].geom>> # <<mode, geom>>
     /\ LET gr == doc.grids[2]
            f  == CellsOf(gr) IN
        doc' = [doc EXCEPT !.grids[2].mode = mode, !.grids[2].geom = geom, !.grids[2].cells = ContentsSeq(f),
@@ -520,7 +517,7 @@ Place(x, s) ==
            f  == CellsOf(gr)
            S  == DOMAIN f \cup {x}
            g2 == [c \in S |-> IF c = x THEN s ELSE f[c]] IN
-       /\ (x \notin DOMAIN f) \/ f[x] # s
+       /\ IF x \in DOMAIN f THEN f[x] # s ELSE TRUE
        /\ gr.mode = "map" => Mappable(gr, g2)
        /\ doc' = [doc EXCEPT !.grids[1].cells = ContentsSeq(g2),
                              !.grids[1].text = IF gr.mode = "map" THEN Redraw(gr, g2) ELSE <<>>]
@@ -547,7 +544,7 @@ ListTwice ==                                                 \* the same cell li
     /\ doc' = [doc EXCEPT !.grids[1].cells = Append(@, <<@[1][1], @[1][2], "B">>)]
     /\ act' = [n |-> "ListTwice"]
 
-Next ==
+Edit ==
     \/ \E cn \in PinNames, d \in {"od", "id", "mult"}, tn \in PinNames, td \in {"od", "id", "mult"} : SetLink(cn, d, tn, td)
     \/ \E cn \in PinNames, d \in {"od", "id", "mult"} : SetNum(cn, d)
     \/ \E cn \in PinNames : DropComp(cn)
@@ -577,35 +574,37 @@ Next ==
     \/ \E x \in (-2..2) \X (-2..2) : Unplace(x)
     \/ AsMap
     \/ ListTwice
-Spec == Init /\ [][Next]_<<vars, act>>
+Next == depth < MaxLevel(fam) /\ Edit /\ fam' = fam /\ depth' = depth + 1
+Spec == Init /\ [][Next]_<<vars, act, depth>>
 
 (* ============================================ properties ============================================ *)
 V == Verdict(doc)
+Ok == Modelled(doc) /\ V = "ok"      \* TLC evaluates invariants also on states the constraint prunes
 TypeOK == /\ fam \in Families
           /\ \A b \in 1..Len(doc.blocks) : \A c \in 1..Len(doc.blocks[b].comps) :
                  DOMAIN doc.blocks[b].comps[c].dims = DimsOfShape[doc.blocks[b].comps[c].shape]
 \* a well-formed document has exactly one reading: every name it uses resolves to one thing
-OkIsUnambiguous == V = "ok" =>
+OkIsUnambiguous == Ok =>
     /\ \A x \in DOMAIN CoreCells(doc) : Cardinality(AsmWithSpec(doc, CoreCells(doc)[x])) = 1
     /\ \A b \in BlocksUsed(doc) : \A c \in 1..Len(doc.blocks[b].comps) :
            /\ Cardinality(CompIdx(doc.blocks[b], doc.blocks[b].comps[c].name)) = 1
            /\ \A d \in DOMAIN doc.blocks[b].comps[c].dims \ {"mult"} : Res(doc.blocks[b], doc.blocks[b].comps[c].name, d) >= 0
 \* ... its solid components have non-negative area and fit into the block; multiplicities are positive counts
-OkIsPhysical == V = "ok" => \A b \in BlocksUsed(doc) : LET B == doc.blocks[b] IN
+OkIsPhysical == Ok => \A b \in BlocksUsed(doc) : LET B == doc.blocks[b] IN
     /\ CertainlyFits(B)
     /\ \A c \in 1..Len(B.comps) : (Solid(B.comps[c].mat) => ~NegativeArea(B, B.comps[c]))
     /\ \A c \in 1..Len(B.comps) : ("mult" \in DOMAIN B.comps[c].dims => MultOf(doc, B, B.comps[c]) >= 1)
 \* ... every assembly design is a stack: one height, mesh count and xs type per block, elevations add up
-OkIsStacked == V = "ok" => \A s \in PlacedSpecs(doc) : LET e == ExpAsm(doc, AsmOfSpec(doc, s)) IN
+OkIsStacked == Ok => \A s \in PlacedSpecs(doc) : LET e == ExpAsm(doc, AsmOfSpec(doc, s)) IN
     /\ e.blocks[1].zbot = 0
     /\ \A k \in 1..Len(e.blocks) : e.blocks[k].ztop = e.blocks[k].zbot + e.blocks[k].height /\ e.blocks[k].height > 0
     /\ \A k \in 2..Len(e.blocks) : e.blocks[k].zbot = e.blocks[k - 1].ztop
     /\ e.blocks[Len(e.blocks)].ztop \in Rng(Expected(doc).mesh)
 \* ... a lattice map and the explicit list of the same design describe the same core (text maps and lists alike)
-MapAndListAgree == (V = "ok" /\ CoreGrid(doc).mode = "map") =>
+MapAndListAgree == (Ok /\ CoreGrid(doc).mode = "map") =>
     CellsOf([CoreGrid(doc) EXCEPT !.mode = "cells"]) = CoreCells(doc)
 \* ... every cell of a pin lattice that carries an id of a component is one of that component's cells, once
-PinsPartition == V = "ok" => \A b \in BlocksUsed(doc) : LET B == doc.blocks[b] IN
+PinsPartition == Ok => \A b \in BlocksUsed(doc) : LET B == doc.blocks[b] IN
     \A c \in 1..Len(B.comps) : PinCells(doc, B, B.comps[c]) # {} => MultOf(doc, B, B.comps[c]) = Cardinality(PinCells(doc, B, B.comps[c]))
 \* the four inconsistencies of the statement are told apart from well-formed documents by the reading alone
 Refusals == {"DuplicateName", "UnequalLists", "UnknownSpecifier", "Overlap", "MultConflict", "InvalidModification", "NonUniformMesh", "OutsideDomain"}
